@@ -43,6 +43,7 @@ registry! {
     "C12" => c12,
     "C13" => c13,
     "C14" => c14,
+    "C15" => c15,
     "C17" => c17,
     "C18" => c18,
 }
